@@ -88,6 +88,7 @@ def run_gridseq(case):
 def build(spec, shared=None):
     k = spec[0]
     if k == "text": return RW.TextWidget(spec[1])
+    if k == "entry": return RW.EntryWidget(spec[1], spec[2])
     if k == "sep": return RW.SeparatorWidget(spec[1])
     if k == "center": return RW.CenterWidget(build(spec[1]))
     if k == "checkbox": return RW.CheckboxWidget(key=spec[1], title=spec[2], text=spec[3], completed=spec[4])
@@ -109,9 +110,31 @@ def build(spec, shared=None):
     raise AssertionError(spec)
 
 
+def kids_of(w):
+    if isinstance(w, RC.Container): return [it.widget for it in w._items]
+    if isinstance(w, RW.CenterWidget): return [w._w]
+    if isinstance(w, RW.ColumnWidget): return [x for _cw, col in w._columns for x in col]
+    return []
+
+
+def build_column(case):
+    return RW.ColumnWidget([(cw, [build(x) for x in items]) for cw, items in case["cols"]], case["spacing"])
+
+
+def run_column(case):
+    """one ColumnWidget object rendered at several widths in turn"""
+    c = build_column(case); out = []
+    for w in case["widths"]:
+        try:
+            c.render(w); o_ = obs(c); o_["nodes"] = nodes_of(c, shared_ids(c)); out.append(o_)
+        except Exception as e:
+            out.append({"err": err_name(e)})
+    return out
+
+
 def nodes_of(w, seen_twice):
     """lines of every descendant in preorder; None for an object that occurs more than once in the tree (it shows its last rendering only)"""
-    kids = [it.widget for it in w._items] if isinstance(w, RC.Container) else [w._w] if isinstance(w, RW.CenterWidget) else []
+    kids = kids_of(w)
     out = []
     for k in kids:
         out.append(None if id(k) in seen_twice else k.get_lines()); out += nodes_of(k, seen_twice)
@@ -120,7 +143,7 @@ def nodes_of(w, seen_twice):
 
 def shared_ids(w, seen=None, twice=None):
     seen = set() if seen is None else seen; twice = set() if twice is None else twice
-    kids = [it.widget for it in w._items] if isinstance(w, RC.Container) else [w._w] if isinstance(w, RW.CenterWidget) else []
+    kids = kids_of(w)
     for k in kids:
         (twice if id(k) in seen else seen).add(id(k)); shared_ids(k, seen, twice)
     return twice
@@ -268,7 +291,7 @@ def run_paging(case):
 
 
 RUN = {"textseq": run_textseq, "text": run_text, "wrap": run_wrap, "int": run_int, "draw": run_draw, "write": run_write,
-       "tree": run_tree, "gridseq": run_gridseq, "keytree": run_keytree, "render_race": run_render_race, "key": run_key, "prompt": run_prompt, "paging": run_paging}
+       "tree": run_tree, "gridseq": run_gridseq, "keytree": run_keytree, "column": run_column, "render_race": run_render_race, "key": run_key, "prompt": run_prompt, "paging": run_paging}
 
 
 def run_impl(case):
